@@ -31,6 +31,7 @@ struct Op
 	double real = 0;
 	std::u32string text;
 	std::string path;         // file_roundtrip: the file this operation (and nobody else) owns
+	bool libraryDefaults = false;   // own data, and no options argument at all: the library's DefaultOptions
 	bool ownOptions = false;  // operations on own data may run with their own options (separator, policies), different per thread
 	SerializationOptions options;
 };
@@ -65,7 +66,7 @@ static std::string Summ(const CallResult& r, const std::string& payload)
 static std::string Execute(const Op& op, const Shared& sh)
 {
 	ArchiveOps& ops = GetOps(op.archive);
-	const SerializationOptions& o = op.ownOptions ? op.options : sh.options;
+	const SerializationOptions& o = op.libraryDefaults ? kLibraryDefaults : op.ownOptions ? op.options : sh.options;
 	switch (op.kind)
 	{
 	case OP_SAVE_OWN:
@@ -292,6 +293,7 @@ Outcome RunC19(RunCtx& ctx)
 			if (op.kind == OP_SAVE_OWN || op.kind == OP_LOAD_OWN || op.kind == OP_LOAD_INVALID || op.kind == OP_LOAD_CORRUPT || op.kind == OP_FILE)
 			{
 				op.ownOptions = s.chance(sim::L_CFG, 1, 2);
+				op.libraryDefaults = !op.ownOptions && op.archive != A_CSV && (op.kind == OP_SAVE_OWN || op.kind == OP_LOAD_OWN) && s.chance(sim::L_CFG, 1, 2);
 				if (op.ownOptions)
 				{
 					op.options = GenLoadOptions(s, sim::L_CFG, op.archive);
@@ -313,7 +315,7 @@ Outcome RunC19(RunCtx& ctx)
 				}
 				if (op.kind != OP_SAVE_OWN && op.kind != OP_FILE)
 				{
-					(void)SaveDynWith(GetOps(op.archive), op.doc, op.bytes, op.ownOptions ? op.options : sh.options, OutCfg{});
+					(void)SaveDynWith(GetOps(op.archive), op.doc, op.bytes, op.libraryDefaults ? kLibraryDefaults : op.ownOptions ? op.options : sh.options, OutCfg{});
 					if (op.kind == OP_LOAD_CORRUPT) (void)CorruptOnce(s, sim::L_FAULT, op.bytes, op.archive == A_MSGPACK, ctx);
 				}
 			}
